@@ -118,6 +118,7 @@ def _(c):
         new0 = cw._propagate(SymDate(0), orb, a)
         c.ensure("init", c.all_eq(np.asarray(new0), x0))
         c.ensure("init.date", new0.date.t == 0)
+        c.ensure("init.fresh_object", bool(new0 is not orb))  # callers add delta-v in place to what _propagate returns
         new = cw._propagate(SymDate(Dual(t, 1)), orb, a)
         y = to_q6 @ np.asarray(new)
         aq = to_q3 @ a
